@@ -2,6 +2,7 @@ INIT Init
 NEXT Next
 CONSTANTS
   Part = "cong"
+  Flaws = {}
   Thorough = TRUE
 INVARIANT LawWellFormed
 INVARIANT LawGuard
